@@ -2,24 +2,21 @@ package c09
 
 import (
 	"encoding/hex"
-	"fmt"
-	"runtime/debug"
 	"strconv"
 	"strings"
 	"testing"
-	"time"
 
-	"github.com/ohler55/slip"
 	"pgregory.net/rapid"
 
-	"verif/harness/internal/ev"
 	"verif/harness/internal/h"
 )
 
-// ReadCase is a byte string given to the reader.
+// ReadCase is a small batch of byte strings given to the reader one after another (each in a fresh
+// reader and scope). A batch keeps the number of round trips to the worker process low; shrinking reduces
+// a failing batch to the one failing text.
 type ReadCase struct {
-	Bytes []byte `json:"bytes"`
-	Show  string `json:"show"`
+	Texts [][]byte `json:"texts"`
+	Show  []string `json:"show"`
 }
 
 const syntaxBytes = "()\"#'`,|;\\"
@@ -35,7 +32,7 @@ var readFragments = []string{
 	"18446744073709551616", "-9223372036854775809", "1.7976931348623157e309", "0x10", "1e", "1d", "1s0", "1l0", "1f0", "#b", "#x", "#x-", "#b2", "#x1/0", "#3r1/0",
 }
 
-func genRead(rt *rapid.T) ReadCase {
+func genText(rt *rapid.T) []byte {
 	var b []byte
 	switch rapid.IntRange(0, 3).Draw(rt, "kind") {
 	case 0: // bytes biased to syntax bytes
@@ -73,49 +70,41 @@ func genRead(rt *rapid.T) ReadCase {
 			}
 		}
 	}
-	return ReadCase{Bytes: b, Show: strconv.QuoteToASCII(string(b))}
+	return b
 }
 
-func readInProcess(b []byte) (r Res) {
-	defer func() {
-		if rec := recover(); rec != nil {
-			r = classify(rec, string(debug.Stack()))
-		}
-	}()
-	_ = slip.ReadString(string(b), slip.NewScope())
-	r.Kind = ev.Value
+func genRead(rt *rapid.T) (c ReadCase) {
+	n := rapid.IntRange(1, 16).Draw(rt, "texts")
+	for i := 0; i < n; i++ {
+		b := genText(rt)
+		c.Texts = append(c.Texts, b)
+		c.Show = append(c.Show, strconv.QuoteToASCII(string(b)))
+	}
 	return
 }
 
+// readRunner is the shared worker of the reader search. Reading happens in a worker process because a
+// reader fault can be an allocation that ends the process.
+var readRunner = &runner{}
+
 func runRead(c ReadCase) *h.Result {
-	res := &h.Result{NonTrivial: strings.ContainsAny(string(c.Bytes), syntaxBytes)}
-	done := make(chan Res, 1)
-	go func() { done <- readInProcess(c.Bytes) }()
-	var r Res
-	select {
-	case r = <-done:
-	case <-time.After(20 * time.Second):
-		// slow here: decide in a fresh worker with the heart-beat deadline
-		v := solo(Call{Op: "read", Hex: hex.EncodeToString(c.Bytes)})
-		switch v.verdict {
-		case vOK:
-			r = v.res
-			res.Classes = append(res.Classes, "not-reproduced-alone")
-		case vStarved:
-			inconclusive.Add(1)
-			res.Classes = append(res.Classes, "inconclusive-starved")
-			return res
-		default:
-			res.Err = fmt.Sprintf("read %s: %s %s", c.Show, v.verdict, firstLines(v.info, 3))
-			return res
+	res := &h.Result{Evals: len(c.Texts)}
+	calls := make([]Call, len(c.Texts))
+	for i, b := range c.Texts {
+		calls[i] = Call{Op: "read", Hex: hex.EncodeToString(b)}
+		if strings.ContainsAny(string(b), syntaxBytes) {
+			res.NonTrivial = true
 		}
 	}
-	res.Classes = append(res.Classes, "read:"+r.Kind)
-	switch r.Kind {
-	case ev.Fault:
-		res.Err = fmt.Sprintf("read %s => FAULT %s [root cause %s at %s, raised by %s]", c.Show, r.Msg, r.Key, r.Site, r.Orig)
-	case ev.Condition:
-		res.Classes = append(res.Classes, "read-condition:"+r.Class)
+	for i, v := range readRunner.run(calls) {
+		one := &h.Result{}
+		judgeCall("read "+strconv.QuoteToASCII(string(c.Texts[i])), calls[i], v, true, one)
+		for _, cl := range one.Classes {
+			res.Classes = append(res.Classes, "read-"+cl)
+		}
+		if one.Err != "" && res.Err == "" {
+			res.Err = one.Err
+		}
 	}
 	return res
 }
@@ -123,5 +112,5 @@ func runRead(c ReadCase) *h.Result {
 var readP = h.Prop[ReadCase]{Name: "reader", Gen: genRead, Run: runRead}
 
 func testReader(t *testing.T) {
-	h.RunProp(t, readP, h.N(100000, 400000))
+	h.RunProp(t, readP, h.N(6000, 50000))
 }
